@@ -3,6 +3,7 @@ package main
 import (
 	"fmt"
 	"go/ast"
+	"go/token"
 	"go/types"
 	"sort"
 	"strings"
@@ -42,6 +43,7 @@ func propC14(c *Ctx) string {
 	}
 	c13TermGuard(c, v)
 	c04CollectGuard(c)
+	c16DeqLock(c, v)
 	c12SetupState(c, v, "C14")
 	c12Once(c, v, "C14")
 	c20Switch(c, v, "C14")
@@ -727,6 +729,7 @@ func c15Ordered(c *Ctx, v *vocab) {
 		r.Check(fi.Name+":result order", site == "" || sorted, fi.Decl.Pos(), work,
 			"the returned slice is appended to while ranging over a map ("+site+") and not sorted: retransmission order after a resume is Go's random map order, not the order of original transmission")
 	}
+	c15SortKey(c, r, impls)
 }
 
 // mapOrderReturn: does some return value of fn (result 0) originate from an append performed inside
@@ -936,4 +939,255 @@ func c15Fifo(c *Ctx, v *vocab) {
 		}
 		r.Check(key, okAt[n], a.ev.Pos, 1, "queue send without the global mutex: two publishers can interleave their fan-outs differently for different sessions", c.witness(a.trace)...)
 	}
+	// sends inside function literals: a literal started with `go` runs without the caller's locks; it must take
+	// the global mutex itself before it sends (a parked hand-over goroutine is overtaken by later publishes)
+	for _, fi := range c.P.LibFuncs("broker") {
+		if fi.Decl.Body == nil {
+			continue
+		}
+		info := fi.Pkg.TypesInfo
+		h := &Interp{P: c.P, Info: info}
+		goLits := map[*ast.FuncLit]bool{}
+		ast.Inspect(fi.Decl.Body, func(m ast.Node) bool {
+			if g, ok := m.(*ast.GoStmt); ok {
+				if fl, ok := ast.Unparen(g.Call.Fun).(*ast.FuncLit); ok {
+					goLits[fl] = true
+				}
+			}
+			return true
+		})
+		ast.Inspect(fi.Decl.Body, func(m ast.Node) bool {
+			fl, ok := m.(*ast.FuncLit)
+			if !ok {
+				return true
+			}
+			ast.Inspect(fl.Body, func(n ast.Node) bool {
+				snd, ok := n.(*ast.SendStmt)
+				if !ok {
+					return true
+				}
+				ct, _ := info.TypeOf(snd.Chan).Underlying().(*types.Chan)
+				if ct == nil || !typeIs(ct.Elem(), "packet", "Message", true) {
+					return true
+				}
+				locked := false
+				ast.Inspect(fl.Body, func(k ast.Node) bool {
+					if call, ok := k.(*ast.CallExpr); ok && call.Pos() < snd.Pos() {
+						if sel, ok := ast.Unparen(call.Fun).(*ast.SelectorExpr); ok && sel.Sel.Name == "Lock" && h.objOf(sel.X) == types.Object(gm) {
+							locked = true
+						}
+					}
+					return true
+				})
+				key := fmt.Sprintf("%s$literal:%s<-", fi.Name, c.P.exprStr(snd.Chan))
+				switch {
+				case goLits[fl]:
+					r.Check(key, locked, snd.Pos(), 1, "a goroutine started for the hand-over sends into a session queue without the global mutex: messages parked in such goroutines are overtaken by later publishes (per-publisher order is lost under back-pressure)")
+				case !locked:
+					r.Undecided(key, snd.Pos(), "queue send inside a function literal whose caller's lockset is not tracked")
+				}
+				return true
+			})
+			return true
+		})
+	}
+}
+
+// c15SortKey: where the resend order is produced by sorting (a listing collected in map order and sorted
+// afterwards), the sort key must be a save-sequence number: a value looked up in a receiver field whose every
+// element store takes its value from a counter field that is only ever incremented (or re-initialised together
+// with the store). Sorting by the packet id itself is not the order of original transmission: ids wrap around at
+// 65535, so after a wrap the retransmission order is reversed for the packets around it.
+func c15SortKey(c *Ctx, r *Rule, impls []*FuncInfo) {
+	// functions reachable from the AllPackets implementations through static in-repo calls
+	reach := map[*types.Func]*FuncInfo{}
+	var via func(fi *FuncInfo)
+	via = func(fi *FuncInfo) {
+		if reach[fi.Obj] != nil || fi.Decl.Body == nil {
+			return
+		}
+		reach[fi.Obj] = fi
+		ast.Inspect(fi.Decl.Body, func(m ast.Node) bool {
+			if call, ok := m.(*ast.CallExpr); ok {
+				if g, ok := typeutilCallee(fi.Pkg.TypesInfo, call).(*types.Func); ok {
+					if h := c.P.ByObj[g]; h != nil {
+						via(h)
+					}
+				}
+			}
+			return true
+		})
+	}
+	for _, fi := range impls {
+		via(fi)
+	}
+	var fis []*FuncInfo
+	for _, fi := range reach {
+		fis = append(fis, fi)
+	}
+	sort.Slice(fis, func(i, j int) bool { return fis[i].Name < fis[j].Name })
+	for _, fi := range fis {
+		info := fi.Pkg.TypesInfo
+		h := &Interp{P: c.P, Info: info}
+		ast.Inspect(fi.Decl.Body, func(m ast.Node) bool {
+			call, ok := m.(*ast.CallExpr)
+			if !ok {
+				return true
+			}
+			f, ok := typeutilCallee(info, call).(*types.Func)
+			if !ok || f.Pkg() == nil || (f.Pkg().Path() != "sort" && f.Pkg().Path() != "slices") {
+				return true
+			}
+			key := fi.Name + ":" + f.Pkg().Name() + "." + f.Name() + " key"
+			var less *ast.FuncLit
+			for _, a := range call.Args {
+				if fl, ok := ast.Unparen(a).(*ast.FuncLit); ok {
+					less = fl
+				}
+			}
+			if less == nil || len(less.Body.List) != 1 {
+				r.Undecided(key, call.Pos(), "the ordering function is not a single-return function literal: the sort key cannot be identified")
+				return true
+			}
+			ret, ok := less.Body.List[0].(*ast.ReturnStmt)
+			if !ok || len(ret.Results) != 1 {
+				r.Undecided(key, call.Pos(), "the ordering function is not a single-return function literal")
+				return true
+			}
+			cmp, ok := ast.Unparen(ret.Results[0]).(*ast.BinaryExpr)
+			if !ok || (cmp.Op != token.LSS && cmp.Op != token.GTR && cmp.Op != token.LEQ && cmp.Op != token.GEQ) {
+				r.Undecided(key, call.Pos(), "the ordering function does not compare two keys")
+				return true
+			}
+			// each side: lookup in a receiver field F
+			var field *types.Var
+			okSides := true
+			for _, side := range []ast.Expr{cmp.X, cmp.Y} {
+				ix, isIx := ast.Unparen(side).(*ast.IndexExpr)
+				if !isIx {
+					okSides = false
+					break
+				}
+				fv, _ := h.objOf(ix.X).(*types.Var)
+				if fv == nil || !fv.IsField() {
+					okSides = false
+					break
+				}
+				if field != nil && field != fv {
+					okSides = false
+				}
+				field = fv
+			}
+			if !okSides || field == nil {
+				r.Fail(key, call.Pos(), 1, "the listing is sorted by "+types.ExprString(cmp.X)+" — not by a save-sequence number kept by the store: packet ids wrap around, so this is not the order of original transmission")
+				return true
+			}
+			// every element store into F takes its value from a counter field that is only incremented
+			good, why := c.monotoneSequence(field)
+			r.Check(key, good, call.Pos(), 1, "the sort key "+field.Name()+" is not a monotone save-sequence: "+why)
+			return true
+		})
+	}
+}
+
+// monotoneSequence: every store F[k] = v in F's package has v read from one counter field G; G is incremented in
+// the storing function; G is otherwise only assigned constants (re-initialisation).
+func (c *Ctx) monotoneSequence(F *types.Var) (bool, string) {
+	var pkgFuncs []*FuncInfo
+	for _, fi := range c.P.Funcs {
+		if fi.Pkg.Types == F.Pkg() && fi.Decl.Body != nil {
+			pkgFuncs = append(pkgFuncs, fi)
+		}
+	}
+	sort.Slice(pkgFuncs, func(i, j int) bool { return pkgFuncs[i].Name < pkgFuncs[j].Name })
+	var counter *types.Var
+	stores := 0
+	for _, fi := range pkgFuncs {
+		h := &Interp{P: c.P, Info: fi.Pkg.TypesInfo}
+		bad := ""
+		ast.Inspect(fi.Decl.Body, func(m ast.Node) bool {
+			as, ok := m.(*ast.AssignStmt)
+			if !ok {
+				return true
+			}
+			for i, l := range as.Lhs {
+				ix, isIx := ast.Unparen(l).(*ast.IndexExpr)
+				if !isIx || h.objOf(ix.X) != types.Object(F) || i >= len(as.Rhs) {
+					continue
+				}
+				stores++
+				g, _ := h.objOf(as.Rhs[i]).(*types.Var)
+				if g == nil || !g.IsField() || as.Tok != token.ASSIGN {
+					bad = "element store in " + fi.Name + " does not take its value from a counter field"
+					continue
+				}
+				if counter != nil && counter != g {
+					bad = "element stores use different counters"
+				}
+				counter = g
+				// the counter is incremented in this function
+				inc := false
+				ast.Inspect(fi.Decl.Body, func(n ast.Node) bool {
+					switch x := n.(type) {
+					case *ast.IncDecStmt:
+						if x.Tok == token.INC && h.objOf(x.X) == types.Object(g) {
+							inc = true
+						}
+					case *ast.AssignStmt:
+						if x.Tok == token.ADD_ASSIGN && len(x.Lhs) == 1 && h.objOf(x.Lhs[0]) == types.Object(g) {
+							if tv, ok := fi.Pkg.TypesInfo.Types[x.Rhs[0]]; ok && tv.Value != nil && tv.Value.String() != "0" {
+								inc = true
+							}
+						}
+					}
+					return true
+				})
+				if !inc {
+					bad = "the counter " + g.Name() + " is not incremented in " + fi.Name
+				}
+			}
+			return true
+		})
+		if bad != "" {
+			return false, bad
+		}
+	}
+	if stores == 0 || counter == nil {
+		return false, "no element store into " + F.Name() + " found"
+	}
+	// other writers of the counter: only constants, never decrements
+	for _, fi := range pkgFuncs {
+		h := &Interp{P: c.P, Info: fi.Pkg.TypesInfo}
+		bad := ""
+		ast.Inspect(fi.Decl.Body, func(m ast.Node) bool {
+			switch x := m.(type) {
+			case *ast.IncDecStmt:
+				if x.Tok == token.DEC && h.objOf(x.X) == types.Object(counter) {
+					bad = "the counter is decremented in " + fi.Name
+				}
+			case *ast.AssignStmt:
+				for i, l := range x.Lhs {
+					if h.objOf(l) != types.Object(counter) {
+						continue
+					}
+					switch x.Tok {
+					case token.ADD_ASSIGN:
+					case token.ASSIGN, token.DEFINE:
+						if i < len(x.Rhs) {
+							if tv, ok := fi.Pkg.TypesInfo.Types[x.Rhs[i]]; !ok || tv.Value == nil {
+								bad = "the counter is assigned a non-constant in " + fi.Name
+							}
+						}
+					default:
+						bad = "the counter is modified by " + x.Tok.String() + " in " + fi.Name
+					}
+				}
+			}
+			return true
+		})
+		if bad != "" {
+			return false, bad
+		}
+	}
+	return true, ""
 }
